@@ -220,3 +220,54 @@ func H_C18_llmnr_close_before_serve() {
 	}
 	vCover("end")
 }
+
+// server, two clients: each query is answered to the address it came from (the writer handed to a handler belongs to
+// that request alone, also while another request's handler has not run yet).
+func H_C18_llmnr_server_two_clients() {
+	runtime.GOMAXPROCS(1)
+	srv, cli0, ok := c18loopback()
+	if !ok {
+		return
+	}
+	defer cli0.Close()
+	cli1, err := net.ListenUDP("udp", &net.UDPAddr{IP: net.IPv4(127, 0, 0, 1)})
+	if err != nil {
+		return
+	}
+	defer cli1.Close()
+	id0, id1 := vU16("id0"), vU16("id1")
+	vAssume(id0 != id1)
+	echo := HandlerFunc(func(s *Server, remote net.Addr, w ResponseWriter, m *Message) bool {
+		r := CreateResponseFromMessage(m)
+		for _, q := range m.Questions {
+			r.AddQuestion(q.Name, q.Type, q.Class)
+		}
+		w.WriteMessage(r)
+		return false
+	})
+	s := &Server{Handlers: []Handler{echo}, Closed: make(chan struct{}), Conn: srv, Network: "udp4"}
+	to := srv.LocalAddr().(*net.UDPAddr)
+	cli0.WriteToUDP(c18query(id0, "alpha"), to)
+	cli1.WriteToUDP(c18query(id1, "bravo"), to)
+	go s.Serve()
+	time.Sleep(300 * time.Millisecond)
+	buf := make([]byte, 600)
+	clients := [2]*net.UDPConn{cli0, cli1}
+	ids := [2]uint16{id0, id1}
+	for k := 0; k < 2; k++ {
+		clients[k].SetReadDeadline(time.Now().Add(time.Second))
+		n, _, err := clients[k].ReadFromUDP(buf)
+		vCheck(err == nil, "llmnr/server/each-client-gets-a-response")
+		if err != nil {
+			continue
+		}
+		r, err := DecodeMessage(buf[:n])
+		vCheck(err == nil && r != nil && r.ID == ids[k], "llmnr/server/response-goes-to-the-client-that-asked")
+		// and nothing else arrives there
+		clients[k].SetReadDeadline(time.Now().Add(200 * time.Millisecond))
+		_, _, err = clients[k].ReadFromUDP(buf)
+		vCheck(err != nil, "llmnr/server/no-foreign-response")
+	}
+	s.Close()
+	vCover("end")
+}
